@@ -814,12 +814,67 @@ def set_probe_case(case):
     return dict(reproduced=bool(violated), violated=violated[:4])
 
 
+def list_length_case(case):
+    """C04: a List attribute never holds a list of illegal length -- whichever way the list object comes to exist (assignment,
+    a declared default materialised at first read, direct construction, unpickling) and after every mutation."""
+    from traits.api import HasTraits, List, Int, TraitError
+    from traits.trait_list_object import TraitListObject
+    violated = []
+
+    def mk(minlen, maxlen, default):
+        kw = dict(minlen=minlen, maxlen=maxlen)
+
+        class A(HasTraits):
+            xs = List(Int, default, **kw) if default is not None else List(Int, **kw)
+        return A
+    for minlen, maxlen in ((0, 2), (1, 3), (2, 2), (2, 5), (3, 4)):
+        for default in (None, [], [7], [7, 8], [1, 2, 3], [1, 2, 3, 4, 5, 6]):
+            try:
+                A = mk(minlen, maxlen, default)
+            except Exception:
+                continue
+            label = "List(Int, %r, minlen=%d, maxlen=%d)" % (default, minlen, maxlen)
+            a = A()
+            events = []
+            a.on_trait_change(lambda *args: events.append(args), "xs_items")
+            try:
+                held = a.xs
+            except TraitError:
+                held = None
+            if held is not None and not minlen <= len(held) <= maxlen:
+                violated.append("%s: first read gives %r (length %d)" % (label, list(held), len(held)))
+            if held is None:
+                continue
+            for opname, op in (("append(1)", lambda l: l.append(1)), ("pop()", lambda l: l.pop()), ("extend([1, 2])", lambda l: l.extend([1, 2])),
+                               ("clear()", lambda l: l.clear()), ("del [0]", lambda l: l.__delitem__(0)), ("*= 2", lambda l: l.__imul__(2)), ("[:] = []", lambda l: l.__setitem__(slice(None), []))):
+                before = list(a.xs)
+                del events[:]
+                try:
+                    op(a.xs)
+                    raised = None
+                except (TraitError, IndexError) as e:
+                    raised = e
+                now = list(a.xs)
+                if not minlen <= len(now) <= maxlen:
+                    violated.append("%s: after %s the attribute holds %r (length %d)" % (label, opname, now, len(now)))
+                if raised is not None and (now != before or events):
+                    violated.append("%s: %s raised %r but contents %r -> %r, %d event(s)" % (label, opname, raised, before, now, len(events)))
+            for value in ([], [1], [1, 2], [1, 2, 3], [1, 2, 3, 4, 5, 6]):
+                try:
+                    t = TraitListObject(A.class_traits()["xs"].handler, a, "xs", value)
+                except TraitError:
+                    continue
+                if not minlen <= len(t) <= maxlen:
+                    violated.append("%s: TraitListObject(..., %r) constructed with length %d" % (label, value, len(t)))
+    return dict(reproduced=bool(violated), violated=violated[:8])
+
+
 def main():
     case = json.loads(sys.stdin.read())
     fam = case.get("family", "list")
     out = {"list": list_case, "dict": dict_case, "dict_event_factory": dict_event_factory_case,
            "set_copy": set_copy_case, "set": set_case, "dict_probe": dict_probe_case, "list_probe": list_probe_case,
-           "set_probe": set_probe_case}[fam](case)
+           "set_probe": set_probe_case, "list_length": list_length_case}[fam](case)
     print(json.dumps(out, default=repr))
 
 
